@@ -179,3 +179,32 @@ Proof.
   - constructor; [repeat constructor|]. repeat constructor; cbn; try discriminate.
   - split; [discriminate|]. split; [cbn; exact I|]. repeat constructor. cbn. vm_compute. discriminate.
 Qed.
+
+(* The same entry-point theorem with the two premises about the disclosure encoding DISCHARGED: when the encoding is
+   base64url (Base64.v, proved) of a JSON text (ser / parse, with parse (ser ps) = Some (JArr ps) the one assumption left
+   about the text layer), "decoding inverts encoding" and "an encoded disclosure contains no '~'" are theorems. *)
+Require Import SDJ.Base64Env.
+Theorem C01_encode_then_holder_verify_base64 :
+  forall (ser : list json -> string) (parse : string -> option json),
+  (forall ps, parse (ser ps) = Some (JArr ps)) ->
+  forall (E : issue_env) (O : oracles),
+  ie_enc E = enc64 ser -> o_dec O = dec64 parse ->
+  (forall x y, ie_hash E x = ie_hash E y -> x = y) ->
+  o_hash O SHA256 = ie_hash E ->
+  (forall h p j, ie_sign E h p = Val j -> o_jwt O j = Val (h, p)) ->
+  (forall h p, exists j, ie_sign E h p = Val j /\ Split.contains Split.tilde j = false) ->
+  (forall xs, Permutation.Permutation (ie_perm E xs) xs) ->
+  forall (ckvs : list (string * json)) (paths : list string) tks (t' : atree)
+         (max_decoys : option Z) (cnf : option json) (header : json),
+  jwf (JObj ckvs) -> ~ In "_sd_alg" (map fst ckvs) -> ~ In "cnf" (map fst ckvs) ->
+  NoDup (ie_salts E) -> paths <> [] -> split_paths paths = Some tks ->
+  T1j.mark_fold (ie_hash E) (ie_enc E) Issuer2.parse_index Issuer2.parse_usize (ie_pos E) (embed (JObj ckvs)) tks (ie_salts E) = Some t' ->
+  NoDup (decoys_used E max_decoys) ->
+  (forall g, In g (decoys_used E max_decoys) -> ~ In g (alldigs (ie_hash E) (ie_enc E) t')) ->
+  (match cnf with Some c => jwf c /\ S (aheight (embed c)) <= 129 | None => True end) ->
+  aheight t' <= 129 ->
+  exists token payload ds ps,
+    issue E (JObj ckvs) paths max_decoys cnf header = Val (token, payload, ds) /\
+    holder_verify O token = Val (header, match cnf with Some c => JObj (obj_insert "cnf" c ckvs) | None => JObj ckvs end, ps).
+Proof. exact encode_then_holder_verify_b64. Qed.
+Print Assumptions C01_encode_then_holder_verify_base64.
